@@ -164,7 +164,7 @@ def run(ctx, report: Report) -> None:
                                  f'{q} looks up the attribute {v!r}; HTML lookups compare against the lower-cased document name')
 
     # ---- R2 (tables by partial evaluation of parse_attribute_selector and match_attributes) -----------------
-    r2 = report.rule('C11-R2', 'the type attribute: flag table and case-sensitive twin', floor=100)
+    r2 = report.rule('C11-R2', 'the type attribute: flag table and case-sensitive twin', floor=187)
     from .sem import attribute_patterns, helper_tables
     I, S = int(re.I), int(re.S)
     bad = None
@@ -288,7 +288,7 @@ def run(ctx, report: Report) -> None:
         r3.note('docs/src/markdown/selectors/pseudo-classes.md not present: documentation clause skipped')
 
     # ---- R5 (the whole pipeline by interpretation, bounded) --------------------------------------------------------------
-    r5 = report.rule('C11-R5', 'case rules per document type on a tree of case variants (whole pipeline; bounded)', floor=37)
+    r5 = report.rule('C11-R5', 'case rules per document type on a tree of case variants (whole pipeline; bounded)', floor=187)
     from .e2ematch import case_rules_table
     case_rules_table(ctx, r5)
 
